@@ -1295,9 +1295,22 @@ class Shift(Op):
 
     @staticmethod
     def apply(side, objs, args):
+        if "freq" in args:  # only in systematic cases (C06): shift of a datetime index by an offset
+            return objs[0].shift(args["periods"], freq=parse_freq(args["freq"]))
         if "periods" in args:
             return getattr(objs[0], args["f"])(args["periods"])
         return getattr(objs[0], args["f"])()
+
+
+def parse_freq(spec):
+    """'1D' / 'MS' (alias), 'td:36h' (Timedelta), 'do:months=1,day=5' (plain pd.DateOffset)"""
+    import pandas as pd
+
+    if spec.startswith("td:"):
+        return pd.Timedelta(spec[3:])
+    if spec.startswith("do:"):
+        return pd.DateOffset(**{k: int(v) for k, v in (kv.split("=") for kv in spec[3:].split(","))})
+    return spec
 
 
 def op_names(tags=None, exclude=()):
